@@ -25,3 +25,165 @@ def r3_compute_post(ctx):
 
 
 RULES = [r1_vertex, r2_postfixpoint, r3_compute_post]
+
+
+# ----------------------------------------------------------------------------
+from ..tree import walk, strip, is_call, is_ref, is_this, is_field, deref, src, obj, callee
+from .. import paths
+from ..match import strip_move, is_param, rets, nodes_not_in_log, resolve_local, local_decls, writes_to
+from . import _stmts
+from . import _enumswitch as es
+
+ABS = "include/crab/analysis/abs_transformer.hpp"
+FWD = "include/crab/analysis/fwd_analyzer.hpp"
+IAT = "crab::analyzer::intra_abs_transformer"
+
+EXEMPT_EXEC = {"intrinsic_stmt": "semantics of an intrinsic is domain-defined (the print_invariants intrinsic has no outputs)"}
+
+
+def r4_def_use(ctx):
+    ctx.rule("C01.r4", "exec(S&) overwrites every operand S registers as def, on every path", floor=100)
+    ctx.rule("C01.r5", "every operand exec(S&) reads is registered as a use of S (liveness pruning must not forget it)", floor=200)
+    kinds = _stmts.def_coverage_rule(ctx, "C01.r4", "C01.r5", ABS, IAT, exempt=EXEMPT_EXEC)
+    if kinds is not None and len(kinds) < 33:
+        ctx.fail("rule C01.r4: exec overrides found for %d statement kinds, expected 33" % len(kinds))
+
+
+def r4b_table(ctx):
+    ctx.rule("C01.r4b", "each statement kind is mapped to the reviewed domain operation with its operands in the reviewed positions", floor=33)
+    _stmts.exec_table_rule(ctx, "C01.r4b", "exec_forward", ABS, IAT)
+
+
+def r6_visit_exec(ctx):
+    ctx.rule("C01.r6", "abs_transformer_api::visit(S&) forwards to exec(S&) for all 33 kinds", floor=33)
+    infos = _stmts.statement_table(ctx.db)
+    fs = [f for f in ctx.db.fns(ABS, cpk="crab::analyzer::abs_transformer_api", name="visit")]
+    if not ctx.need(fs, "abs_transformer_api::visit"):
+        return
+    seen = set()
+    for fn in fs:
+        info = _stmts.stmt_info_for(fn, infos)
+        if info is None or (info.name, fn.get("targs")) in seen:
+            continue
+        seen.add((info.name, fn.get("targs")))
+        calls = [n for n in walk(fn["body"]) if is_call(n, name="exec") and is_this(n.get("o")) and n.get("a") and is_param(n["a"][0], fn, 0)]
+        if len(calls) == 1:
+            ctx.ok("visit(%s) -> exec" % info.name, fn, calls[0])
+        else:
+            ctx.bad("abs_transformer_api::visit(%s&) does not forward to exec(s): the statement kind is ignored by every "
+                    "transformer" % info.name, fn, fn["body"], sig="visit-no-exec:%s" % info.name)
+    kinds = {k for k, _ in seen}
+    for info in infos.values():
+        if info.name not in kinds:
+            ctx.bad("abs_transformer_api has no visit(%s&)" % info.name, None, None, sig="visit-missing:%s" % info.name)
+
+
+CONV = {"BINOP_ADD": "OP_ADDITION", "BINOP_SUB": "OP_SUBTRACTION", "BINOP_MUL": "OP_MULTIPLICATION", "BINOP_SDIV": "OP_SDIV",
+        "BINOP_UDIV": "OP_UDIV", "BINOP_SREM": "OP_SREM", "BINOP_UREM": "OP_UREM", "BINOP_AND": "OP_AND", "BINOP_OR": "OP_OR",
+        "BINOP_XOR": "OP_XOR", "BINOP_SHL": "OP_SHL", "BINOP_LSHR": "OP_LSHR", "BINOP_ASHR": "OP_ASHR",
+        "CAST_TRUNC": "OP_TRUNC", "CAST_SEXT": "OP_SEXT", "CAST_ZEXT": "OP_ZEXT",
+        "BINOP_BAND": "OP_BAND", "BINOP_BOR": "OP_BOR", "BINOP_BXOR": "OP_BXOR"}
+
+
+def r7_conv_op(ctx):
+    ctx.rule("C01.r7", "conv_op maps every CFG operator to the domain operator of the same meaning", floor=19)
+    fs = ctx.db.fns(ABS, pk="crab::analyzer::conv_op")
+    if not ctx.need(fs, "conv_op specialisations"):
+        return
+    ops = "include/crab/cfg/cfg_operators.hpp"
+    covered = {}
+    for fn in fs:
+        sw = es.find_switch_on_param(fn, 0)
+        if sw is None:
+            ctx.undecided("conv_op is not a switch on its parameter", fn, fn["body"])
+            continue
+        src_enum = fn["params"][0]["TC"]
+        items = es.enum_items(ctx.db, ops, src_enum) or []
+        named = set()
+        for labels, stmts in es.switch_cases(sw):
+            res = es.case_result_enum(stmts)
+            for lab in labels:
+                if lab == "default":
+                    continue
+                named.add(lab)
+                want = CONV.get(lab)
+                if res == want:
+                    ctx.ok("%s -> %s" % (lab, res), fn, stmts[0] if stmts else sw)
+                    covered.setdefault(lab, []).append(res)
+                else:
+                    ctx.bad("conv_op maps %s to %s; the operator of the same meaning is %s" % (lab, res, want), fn,
+                            stmts[0] if stmts else sw, sig="conv:%s" % lab)
+                    covered.setdefault(lab, []).append(res)
+        for labels, stmts in es.switch_cases(sw):
+            if "default" in labels:
+                res = es.case_result_enum(stmts)
+                rest = [i for i in items if i not in named]
+                if res in (None, "<none>"):
+                    continue        # 'not an operator of this class'
+                if len(rest) == 1 and CONV.get(rest[0]) == res:
+                    ctx.ok("default stands for %s -> %s" % (rest[0], res), fn, stmts[0])
+                    covered.setdefault(rest[0], []).append(res)
+                else:
+                    ctx.bad("the default: of conv_op returns %s for the uncovered enumerators %s" % (res, rest), fn, stmts[0],
+                            sig="conv-default:%s" % src_enum)
+    for lab in CONV:
+        if lab not in covered:
+            ctx.bad("no conv_op maps %s: statements with this operator hit the unsupported-operator path" % lab, fs[0], None, sig="conv-missing:%s" % lab)
+
+
+def r8_prune(ctx):
+    ctx.rule("C01.r8", "pruning forgets only (dead-at-exit minus formals); analyze prunes after all statements were executed", floor=2)
+    fs = ctx.db.fns(FWD, pk="crab::analyzer::analyzer_internal_impl::fwd_analyzer::prune_dead_variables")
+    if not ctx.need(fs, "prune_dead_variables"):
+        return
+    for fn in fs:
+        body = fn["body"]
+        d = local_decls(body)
+        muts = [n for n in walk(body) if n.get("k") == "call" and "o" in n and is_param(n["o"], fn, 1) and callee(n) and not callee(n).get("const")]
+        fg = [n for n in muts if callee(n)["name"] == "forget"]
+        if len(muts) != 1 or len(fg) != 1:
+            ctx.bad("prune_dead_variables mutates the invariant with %s; only forget(dead) is allowed" % [src(m)[:40] for m in muts],
+                    fn, body, sig="prune-mutations")
+            continue
+        # forget argument derives from dead_exit(node) after `dead -= m_formals`
+        def gen(n):
+            if n.get("k") == "call" and n.get("op") == "-=" and any(is_field(x, "m_formals") for x in walk(n)):
+                return ("minus_formals",)
+            return ()
+        f = paths.must_events(body, gen)
+        arg = resolve_local(body, fg[0]["a"][0], d)
+        from_dead = False
+        for x in walk(arg):
+            if x.get("k") == "ref" and x.get("rk") == "local":
+                dd = d.get(x.get("id"))
+                if dd is not None and "i" in dd and any(is_call(y, name="dead_exit") for y in walk(dd["i"])):
+                    from_dead = True
+        if from_dead and "minus_formals" in f.at.get(id(fg[0]), ()):
+            ctx.ok("inv.forget(dead_exit(node) - m_formals)", fn, fg[0])
+        else:
+            ctx.bad("the pruned set is not `dead_exit(node) - formals` (live or formal variables would be forgotten%s)" %
+                    ("" if from_dead else "; argument is " + src(arg)[:60]), fn, fg[0], sig="prune-set")
+    for fn in ctx.db.fns(FWD, pk="crab::analyzer::analyzer_internal_impl::fwd_analyzer::analyze"):
+        body = fn["body"]
+        def gen(n):
+            if n.get("k") == "rangefor" :
+                return ()
+            return ()
+        loops = [l for l in walk(body) if l.get("k") == "rangefor" and any(is_call(x, name="accept") for x in walk(l.get("b")))]
+        pr = [n for n in walk(body) if is_call(n, name="prune_dead_variables")]
+        if loops and pr:
+            order = [x for x in walk(body) if x is loops[0] or x is pr[0]]
+            if order[0] is loops[0] and not any(pr[0] is x for x in walk(loops[0])):
+                ctx.ok("analyze: all statements executed, then dead variables pruned", fn, pr[0])
+            else:
+                ctx.bad("dead variables are pruned before/while the block's statements are executed", fn, pr[0], sig="prune-order")
+        elif loops:
+            ctx.ok("analyze executes every statement of the block", fn, loops[0])
+        else:
+            ctx.bad("fwd_analyzer::analyze does not execute the statements of the block", fn, body, sig="analyze-no-loop")
+        for l in loops:
+            if any(x.get("k") in ("break", "continue") for x in walk(l.get("b"))) or strip(l.get("r")).get("k") != "ref":
+                ctx.bad("analyze skips statements of the block", fn, l, sig="analyze-skips")
+
+
+RULES += [r4_def_use, r4b_table, r6_visit_exec, r7_conv_op, r8_prune]
